@@ -84,7 +84,7 @@ pub fn build(quick: bool) -> PropRun {
             let big = size > 10_000;
             let dev = if big { 3 } else if quick { 5 } else { 8 };
             let env = LwEnv { fates: &[Fate::Deliver, Fate::Drop, Fate::Dup, Fate::Delay3], deltas: &[20, 2000], dev_rounds: dev, dev_start: 0, max_rounds: if big { 2500 } else { 400 }, skip_choice: false, flush_choice: false, blackouts: &[],
-                              stop_when_idle: true, fair_delta: 20, slow_after: usize::MAX, slow_delta: 250, fuel: 5_000_000 };
+                              stop_when_idle: true, fair_delta: 20, slow_after: usize::MAX, slow_delta: 250, fuel: 5_000_000, shifts: &[] };
             let stops = if big { 6 } else if quick { 10 } else { 24 };
             scs.push(lw_scenario_tracked(&format!("C19.lw.{}", pname), cfg.clone(), script, env, if big || quick { 1 } else { 2 }, stops));
         }
